@@ -357,7 +357,19 @@ func genCaseC11(t *rapid.T) *c11Case {
 		// resolved under different concrete types by different operations
 		entry := rapid.SampledFrom([]string{"t", "t1", "i", "is", "u", "us", "ts"}).Draw(t, name+"entry")
 		sub := map[string]string{"t": "T0", "ts": "T0", "t1": "T1", "i": "I0", "is": "I0", "u": "U0", "us": "U0"}[entry]
-		defs = append(defs, "query "+name+"("+c11VarDefs+") { "+g.sels("Query", 3, frags, name)+" "+entry+" { "+g.sels(sub, 2, frags, name+"t")+" } }")
+		// (and, more often than the selection generator would by itself, spreads a named fragment
+		// there: the one parsed selection that several operations have in common)
+		shared := ""
+		var usable []c11Frag
+		for _, fr := range frags {
+			if c11Overlap(sub, fr.on) {
+				usable = append(usable, fr)
+			}
+		}
+		if len(usable) > 0 && rapid.Bool().Draw(t, name+"spreadShared") {
+			shared = " ..." + rapid.SampledFrom(usable).Draw(t, name+"shared").name
+		}
+		defs = append(defs, "query "+name+"("+c11VarDefs+") { "+g.sels("Query", 3, frags, name)+" "+entry+" { "+g.sels(sub, 2, frags, name+"t")+shared+" } }")
 	}
 	defs = append(defs, fragDefs...)
 	if len(defs) > 1 {
